@@ -522,6 +522,13 @@ def _parse_bytes(b: bytes) -> Iterable[tuple[int, int, int, int, int]]:
         arg |= b[i + 1]
         n_args += 1
         if opcode == dis.EXTENDED_ARG:
+            # The interpreter keeps the arg in a C int: with more than three prefixes
+            # (hand written bytecode) the first one is shifted out and could not be
+            # written again
+            if n_args > 3:
+                raise NotImplementedError(
+                    f"More than three EXTENDED_ARG prefixes at offset {i}"
+                )
             arg = arg << 8
             # https://github.com/python/cpython/pull/31285
             if arg > _c_int_upper_limit:
